@@ -11,7 +11,6 @@
 
 int gen_main(int argc, char** argv); // gen_rc.cpp
 
-extern "C" void __sanitizer_set_death_callback(void (*)(void));
 static std::string g_current_case_path;
 
 int main(int argc, char** argv)
